@@ -151,9 +151,9 @@ func runC10(tier string) int {
 			}
 			// context variants: rotate by index so that every sequence sees one of each family over the run;
 			// all contexts for short sequences.
-			ctxs := []int{int(idx % 5)}
+			ctxs := []int{int(idx % 7)}
 			if L <= 2 {
-				ctxs = []int{0, 1, 2, 3, 4}
+				ctxs = []int{0, 1, 2, 3, 4, 5, 6}
 			}
 			for _, ctx := range ctxs {
 				name := c10Names[(int(idx)+ctx)%len(c10Names)]
@@ -173,12 +173,18 @@ func runC10(tier string) int {
 				case 3: // all on one line
 					src = "script S { pre " + csrc + " post }\n"
 					want = []string{"S::", "\tpre", "\t" + cout, "\tpost", "\treturn"}
+				case 5: // inside the '_' case of a poryswitch that is selected because nothing matches
+					src = "script S {\n\tporyswitch(PV) {\n\t\tNOPE: other\n\t\t_ {\n\t\t\tpre\n\t\t\t" + csrc + "\n\t\t\tpost\n\t\t}\n\t}\n}\n"
+					want = []string{"\tpre", "\t" + cout, "\tpost"}
+				case 6: // inside a directly selected colon case, after another command
+					src = "script S {\n\tpre\n\tporyswitch(PV) {\n\t\tSEL: " + csrc + "\n\t\t_: other\n\t}\n\tpost\n}\n"
+					want = []string{"\tpre", "\t" + cout, "\tpost"}
 				default: // inside an if body (optimize: body chunk follows)
 					src = "script S {\n\tif (flag(F)) {\n\t\tpre\n\t\t" + csrc + "\n\t\tpost\n\t}\n}\n"
 					want = []string{"\tpre", "\t" + cout, "\tpost"}
 				}
 				src = "const K = 5\nconst K2 = 1 + 2\n" + src
-				res := comp.Compile(src, comp.Opts{Optimize: true})
+				res := comp.Compile(src, comp.Opts{Optimize: true, Switches: map[string]string{"PV": "SEL"}})
 				r.Add("evaluations", 1)
 				if nargs >= 2 && hasParen {
 					r.Add("nontrivial", 1)
@@ -189,16 +195,24 @@ func runC10(tier string) int {
 				}
 				// The script block is everything before the hoisted data.
 				got := nonBlank(strings.Split(res.Out, "\n"))
-				if ctx == 4 {
+				if ctx >= 4 {
 					// inside an if body only the straight-line stretch is compared (chunk labels and jumps are C01's business)
 					got = stretchOf(got, "\tpre", len(want))
 				}
 				wantAll := append([]string{}, want...)
-				if hasMoves && ctx != 4 {
+				if hasMoves && ctx < 4 {
 					wantAll = append(wantAll, "", "S_Movement_0:", "\tu", "\td", "\tstep_end")
 				}
-				if hasText && ctx != 4 {
+				if hasText && ctx < 4 {
 					wantAll = append(wantAll, "", "S_Text_0:", "\t.string \"hi$\"")
+				}
+				if ctx >= 4 {
+					if hasText && !strings.Contains(res.Out, "S_Text_0:\n\t.string \"hi$\"") {
+						wantAll = append(wantAll, "<missing: S_Text_0 with .string \"hi$\">")
+					}
+					if hasMoves && !strings.Contains(res.Out, "S_Movement_0:\n\tu\n\td\n\tstep_end") {
+						wantAll = append(wantAll, "<missing: S_Movement_0 with u d step_end>")
+					}
 				}
 				wantAll = nonBlank(wantAll)
 				if strings.Join(got, "\n") != strings.Join(wantAll, "\n") {
@@ -226,5 +240,5 @@ func runC10(tier string) int {
 	r.Assume("expected line = name, then the source tokens joined by single spaces with no space before a comma; constants replaced by their value; an inline text / moves() that is a whole argument replaced by its label",
 		"no empty arguments, inline data only as whole arguments, parentheses balanced to depth 2 (the property's domain)")
 	return r.Finish(r.Get("evaluations"), r.Get("nontrivial"),
-		"every argument token sequence of length <= L over a 24-token alphabet (identifiers incl. multi-byte, keywords, decimal/negative/hex numbers, operators, an illegal character, parentheses, comma, two constants, inline text, moves()) that is in the domain, with 5 command names, in 5 contexts (alone, middle of a stretch, twice in a row, all on one line, inside an if body); the whole emitted file is compared byte for byte with the generator's expectation; non-trivial = >= 2 arguments and nested parentheses")
+		"every argument token sequence of length <= L over a 24-token alphabet (identifiers incl. multi-byte, keywords, decimal/negative/hex numbers, operators, an illegal character, parentheses, comma, two constants, inline text, moves()) that is in the domain, with 5 command names, in 7 contexts (alone, middle of a stretch, twice in a row, all on one line, inside an if body, inside a poryswitch case selected through _ / directly); the whole emitted file is compared byte for byte with the generator's expectation; non-trivial = >= 2 arguments and nested parentheses")
 }
